@@ -13,6 +13,8 @@ let () =
     "cursor", Xcursor.cmd_cursor;
     "loop", Xloop.cmd_loop;
     "compile", Xlang.cmd_compile;
+    "dp", Xdp.cmd_dp;
+    "ctlser", Xdp.cmd_ctlser;
   ]
 
 let () =
